@@ -67,6 +67,10 @@ META = {
     "C19": par("The property is the set of SyncOps guards and invariants: each H1 event of each run is checked.", "§7 C19"),
     "C20": par("Writer exclusion (hook H4) and PendingWrite ordering monitors, results per revision.", "§7 C20"),
     "C21": par("must-unwind / may-unwind monitors for Cancelled::Local, results of all handles.", "§7 C21"),
+    "C22": dict(par("Crash-point enumeration: one run per user callback of each base history with a panic injected there; the "
+                    "monitors check that the panic reaches the caller, waiters are released, and every later result is "
+                    "from-scratch.", "§7 C22", "fault enumeration + TLA+ trace validation (CoreTrace / ParTrace / SyncTrace)"),
+                level="fault_enumeration", engine="core-trace"),
     "C23": dict(seq("Value-lifetime discipline only (no raw-memory claims): no drop while a reference of the same revision "
                     "is held, retained references keep their value, no double drop, nothing leaked at database drop.",
                     "§7 C23, §8"), level="exploration"),
